@@ -350,8 +350,7 @@ def check(case):
                 return _fail("corrected values violate flow conservation at an inner node", "node %s: in %s out %s; %s" % (v, a, b, desc), got=str(got))
     else:
         tol = 0 if wt is int else TOL
-        if not _node_flow_exists(G, E, {v for v in G if G.in_degree(v) == 0} | exempt, {v for v in G if G.out_degree(v) == 0} | exempt, got, set(), tol) \
-           if not exempt else not _node_flow_exists(G, E, set(G), set(G), {v: (None if v in exempt else x) for v, x in got.items()}, set(), tol) and False:
+        if not _node_flow_exists(G, E, {v for v in G if G.in_degree(v) == 0}, {v for v in G if G.out_degree(v) == 0}, got, exempt, tol):
             return _fail("corrected node values are not a node-weighted flow", "values %s; %s" % (got, desc), got=str(got))
     # ---- recomputed change
     S = sum((fac * abs(_F(val[k]) - _F(got[k])) for k, fac in counted.items()), Fraction(0))
@@ -363,10 +362,8 @@ def check(case):
 
     def near(a, b):
         return abs(float(a) - float(b)) <= TOL * (1 + abs(float(b)))
-    if not near(sol["error"], U) and not (eps and sol["error"] >= float(U)):
-        return _fail("reported error differs from the recomputed absolute change", "reported %r recomputed %s; %s; corrected %s" % (sol["error"], float(U), desc, got))
-    if eps and not near(sol["error"], U):
-        return _fail("reported error differs from the recomputed absolute change (few-values stage)",
+    if not near(sol["error"], U):
+        return _fail("reported error differs from the recomputed absolute change" + (" (few-values stage)" if eps else ""),
                      "reported %r recomputed %s; %s; corrected %s" % (sol["error"], float(U), desc, got))
     if m.get_objective_value() != sol["error"]:
         return _fail("get_objective_value differs from the reported error", desc)
